@@ -158,6 +158,18 @@ func runC12Bookkeeping(sum *Summary) error {
 				return nil
 			}
 		}
+		// ... and inside what the table exports (backup, follower snapshot): every stored pair, the NUL-only keys too
+		{
+			var cnt countWriter
+			if _, err := g.f.Lookup(fsm.SnapshotRequest{Writer: &cnt}); err != nil {
+				return err
+			}
+			sum.Evaluations++
+			if cnt.n != stored {
+				sum.violate(320002, "the table export does not contain every stored key", map[string]any{"stored": "keys of 1, 2, 5, 300, 1018, 1019, 1020, 1024 NUL bytes, and 00 01, 01, 'a', ff"}, fmt.Sprintf("%d of %d pairs exported", cnt.n, stored))
+				return nil
+			}
+		}
 		res, _, err := g.apply([]gEntry{{Idx: uint64(stored + 1), Cmd: gCmd{Kind: regattapb.Command_DELETE, K: []byte{0}, End: []byte{0}, Count: true}}})
 		if err != nil {
 			return err
@@ -167,8 +179,45 @@ func runC12Bookkeeping(sum *Summary) error {
 			sum.violate(320001, "a wildcard range delete does not report every stored key", map[string]any{"stored": stored}, fmt.Sprintf("deleted %d", d))
 		}
 	}
+	// a point lookup of a key that is not stored finds nothing - also when a stored key has it as a proper prefix, or
+	// is its byte-wise successor
+	{
+		g, _, err := newRealFSM(vfs.NewMem(), fsm.RecoveryTypeSnapshot)
+		if err != nil {
+			return err
+		}
+		defer g.close()
+		if _, _, err := g.apply([]gEntry{{Idx: 1, Cmd: gCmd{Kind: regattapb.Command_PUT, K: []byte("app/config"), V: []byte("v1")}},
+			{Idx: 2, Cmd: gCmd{Kind: regattapb.Command_PUT, K: []byte("b"), V: []byte("v2")}},
+			{Idx: 3, Cmd: gCmd{Kind: regattapb.Command_PUT, K: []byte{'c', 0}, V: []byte("v3")}}}); err != nil {
+			return err
+		}
+		idx := uint64(3)
+		for _, k := range [][]byte{[]byte("app"), []byte("app/"), {'a', 0xff}, {'a', 0xff, 0xff}, []byte("c"), []byte("a")} {
+			sum.Evaluations++
+			in := map[string]any{"stored": "app/config, b, c\\x00", "asked_hex": fmt.Sprintf("%x", k)}
+			if r, err := g.read(gRange{Key: k}); err != nil || len(r.Kvs) != 0 || r.Count != 0 {
+				sum.violate(330000, "a lookup of a key that was never written returns a pair (two different user keys are treated as one)", in, fmt.Sprint(r, err))
+				return nil
+			}
+			idx++
+			res, _, err := g.apply([]gEntry{{Idx: idx, Cmd: gCmd{Kind: regattapb.Command_DELETE, K: k, Prev: true, Count: true}}})
+			if err != nil {
+				return err
+			}
+			if d := res[0].Resps[0].GetResponseDeleteRange(); d.GetDeleted() != 0 || len(d.GetPrevKvs()) != 0 {
+				sum.violate(330001, "deleting a key that was never written reports a deletion (two different user keys are treated as one)", in, fmt.Sprint(d))
+				return nil
+			}
+		}
+	}
 	return nil
 }
+
+// countWriter counts the records the table export writes.
+type countWriter struct{ n int }
+
+func (c *countWriter) Write(p []byte) (int, error) { c.n++; return len(p), nil }
 
 func trunc(b []byte) []byte {
 	if len(b) > 8 {
